@@ -288,7 +288,20 @@ func TestVerifC01(t *testing.T) {
 			c01Contexts(c, "guard/string-string", opt, []pdf.Object{s, s})
 			c.R.Count("format_parse_round_trips", 3*7+1)
 		}
-		// the public single-token parsers
+		// the public single-token parsers (now and then after a call which left
+		// its scanner in an unusual state: a long input, an unterminated one)
+		if c.Index%16 == 3 {
+			long := pdf.String(bytes.Repeat([]byte{'(', 0x80, ')'}, 1100))
+			var lb bytes.Buffer
+			pdf.Format(&lb, pdf.OutputOptions(c.Index/16%2)*pdf.OptPretty, long)
+			if got, err := pdf.ParseString(lb.Bytes()); err != nil || !bytes.Equal(got, long) {
+				c.Violationf("ParseString/long", "ParseString of a 3300-byte string: %d bytes, %v", len(got), err)
+			}
+			pdf.ParseString([]byte("(unterminated"))
+			pdf.ParseString([]byte("<41"))
+			pdf.ParseName([]byte("/" + strings.Repeat("n", 2000)))
+			c.R.Count("single_token_parsers_after_unusual_calls", 1)
+		}
 		var buf bytes.Buffer
 		pdf.Format(&buf, 0, s)
 		if got, err := pdf.ParseString(buf.Bytes()); err != nil || !bytes.Equal(got, b) {
